@@ -108,16 +108,15 @@ Qed.
 
 (* the variables local_add_acts creates are the declarations of the statement *)
 Lemma local_add_acts_decls il : forall es ns ls ats,
-  length ns = length ls -> length ns = length ats -> (length es <= length ns)%nat ->
+  length ns = length ls -> length ns = length ats ->
   adds_of (local_add_acts il ns ls ats es) = map var_of_decl (local_decls il ns ls ats es None).
 Proof.
-  induction es as [|e es' IH]; intros ns ls ats Hl Ha Hle.
+  induction es as [|e es' IH]; intros ns ls ats Hl Ha.
   - cbn [local_add_acts]. apply local_rest_decls. intros; discriminate.
-  - destruct ns as [|n ns']; [cbn in Hle; lia|].
+  - destruct ns as [|n ns']; [reflexivity|].
     destruct ls as [|l ls']; [discriminate|]. destruct ats as [|a ats']; [discriminate|].
     assert (Hl' : length ns' = length ls') by (cbn [length] in Hl; lia).
     assert (Ha' : length ns' = length ats') by (cbn [length] in Ha; lia).
-    assert (Hle' : (length es' <= length ns')%nat) by (cbn [length] in Hle; lia).
     cbn [local_add_acts local_decls map].
     set (v := mkVar10 n l false (match a with AttrClose => true | _ => false end) (is_func_exp e) (Some e)
                       (local_refer_empty n e) [] il (Scope.tab_of_exp e)).
@@ -130,15 +129,15 @@ Proof.
 Qed.
 
 Lemma local_go_adds flv slv l : forall es ns ls ats g,
-  length ns = length ls -> length ns = length ats -> (length es <= length ns)%nat ->
+  length ns = length ls -> length ns = length ats ->
   Forall ExpAdds es -> forallb frag_exp es = true ->
   AddsOK (fst (tr_stat (SLocal ns ls ats es l) flv slv g)) (flat_map d_exp es ++ local_decls (Scope.init_loc ns ls es l) ns ls ats es None).
 Proof.
-  intros es ns ls ats g Hl Ha Hle Hok Hf.
-  rewrite tr_stat_local, local_vis_thread, (local_visited_all es ns ls ats Hl Ha Hle).
+  intros es ns ls ats g Hl Ha Hok Hf.
+  rewrite tr_stat_local.
   pose proof (thread_exps_adds flv es g Hok Hf) as H1.
   destruct (thread (fun x g0 => tr_exp x None flv g0) es g) as [a1 g1]. cbn [fst] in *.
-  apply AddsOK_app; [exact H1|]. unfold AddsOK. rewrite (local_add_acts_decls _ es ns ls ats Hl Ha Hle).
+  apply AddsOK_app; [exact H1|]. unfold AddsOK. rewrite (local_add_acts_decls _ es ns ls ats Hl Ha).
   apply Permutation_refl.
 Qed.
 
